@@ -36,7 +36,7 @@ public:
     private:
         QString m_host;
         QString m_jid;
-        quint16 m_port;
+        quint16 m_port = 0;
         QString m_zeroconf;
     };
 
